@@ -323,6 +323,32 @@ func makeRange(min, max int) []int {
 	return rng
 }
 
+// outsideInt reports whether a numeric value lies above (+1) or below (-1)
+// what an int can hold; 0 if it can be converted.
+func outsideInt(a interface{}) int {
+	const limit = 9223372036854775808.0 // 2^63
+	switch x := a.(type) {
+	case uint:
+		if uint64(x) > math.MaxInt64 {
+			return 1
+		}
+	case uint64:
+		if x > math.MaxInt64 {
+			return 1
+		}
+	case float32:
+		return outsideInt(float64(x))
+	case float64:
+		switch {
+		case x >= limit:
+			return 1
+		case x < -limit:
+			return -1
+		}
+	}
+	return 0
+}
+
 func toInt(a interface{}) int {
 	switch x := a.(type) {
 	case float32:
